@@ -4,8 +4,9 @@
    Vocabulary (C05/Model.v, C05/Defs.v).  A history [h] is a list of the events the scheduler
    goroutine processes (Start t | Wake w | Added t sched | Removed t id | Snapshot | Stop), the
    API calls made while it is not running (ScheduleIdle | RemoveIdle | EntriesIdle | StopIdle |
-   StartNoop), job returns (JobRet), looks at Stop's contexts (CtxPoll) and clock readings taken
-   while the loop is parked with its timer pending (Tick c).  [wf next (init t0) h = true]: every
+   StartNoop), job returns (JobRet), looks at Stop's contexts (CtxPoll), clock readings taken
+   while the loop is parked with its timer pending (Tick c), and the returns of Remove / Stop
+   calls to their callers (RemoveRet id, StopRet).  [wf next (init t0) h = true]: every
    event is enabled in the state it meets and the environment behaves (clock never backwards, a
    timer never fires before its instant, a Tick reads a time before the pending timer's instant).
    [run next (init t0) h = Some s]: the state after [h].  [starts s] is the ghost list of every
@@ -137,6 +138,30 @@ Theorem C05_stop_clean : forall (sched : Type) (next : sched -> Z -> option Z),
 Proof. exact stop_clean. Qed.
 Print Assumptions C05_stop_clean.
 
+(* "After Remove returns": from the moment a Remove(id) call has returned to its caller (event
+   RemoveRet, which the model enables only once the scheduler has taken the id and dropped the
+   entry), no job with that id is started and no live entry has it, in any continuation. *)
+Theorem C05_remove_returned_clean : forall (sched : Type) (next : sched -> Z -> option Z),
+  (forall s t u, next s t = Some u -> t < u) ->
+  forall t0 h1 id h2 s1 s2,
+  wf next (init t0) (h1 ++ RemoveRet id :: h2) = true ->
+  run next (init t0) h1 = Some s1 -> run next (init t0) (h1 ++ RemoveRet id :: h2) = Some s2 ->
+  exists new, starts s2 = starts s1 ++ new /\ of_id id new = [] /\
+              forall e, In e (entries s2) -> eid e <> id.
+Proof. exact remove_returned_clean. Qed.
+Print Assumptions C05_remove_returned_clean.
+
+(* "After Stop returns": from the moment a Stop() call has returned (event StopRet, enabled only
+   once the scheduler has taken the stop request) nothing is started until a later Start. *)
+Theorem C05_stop_returned_clean : forall (sched : Type) (next : sched -> Z -> option Z),
+  forall t0 h1 h2 s1 s2,
+  wf next (init t0) (h1 ++ StopRet :: h2) = true ->
+  existsb is_start h2 = false ->
+  run next (init t0) h1 = Some s1 -> run next (init t0) (h1 ++ StopRet :: h2) = Some s2 ->
+  starts s2 = starts s1.
+Proof. exact stop_returned_clean. Qed.
+Print Assumptions C05_stop_returned_clean.
+
 (* Entries is exact: a snapshot (running or idle) changes nothing and lists every live entry
    exactly once with its id, the activation it is waiting for and its Prev; and that Prev is the
    activation of the entry's most recent job start (zero if it never ran). *)
@@ -204,7 +229,9 @@ Print Assumptions C05_restart_skips.
 (* The model meets the specification written from the property text (C05/Spec.v: per entry, no
    ordering, no timer): the observable trace of every well-formed history satisfies [spec_ok]
    (each wake-up starts exactly the set of due entries, each at or after its activation; parked
-   clock readings find no reached activation; snapshots, contexts, fresh ids as specified).
+   clock readings find no reached activation; snapshots, contexts, fresh ids as specified; an entry
+   whose Remove call has returned is neither started nor listed; nothing starts after a Stop call
+   has returned).
    Holds for ANY schedule function, even one that violates "later than the given time". *)
 Theorem C05_model_meets_spec : forall (sched : Type) (next : sched -> Z -> option Z),
   forall t0 h, wf next (init t0) h = true -> spec_ok next (trace next (init t0) h).
